@@ -9,6 +9,7 @@ name=seed-$(basename $(dirname $src))-$(basename $src)
 d=/tmp/vmut/$name; w=/tmp/vmut/$name.w; rm -rf $d $w; mkdir -p /tmp/vmut $w/tmp
 git -C /repo worktree add -q --detach $d HEAD || exit 3
 . /verif/toolchain/env.sh
+export LLGO_LIB_PYTHON=/usr/lib/x86_64-linux-gnu/python3.11
 rundemo() { # $1 = tag
   /verif/toolchain/buildllgo.sh $d $w/llgo-$1 >/dev/null 2>$w/build-$1.log || { echo "llgo build failed ($1)"; return; }
   rm -rf $w/demo; cp -r $src/demo $w/demo
@@ -24,6 +25,6 @@ c1=$(grep -v '^exit=' $w/out-patched.txt | diff -q - $exp >/dev/null 2>&1 && ech
 echo "SEED $name: demo vs expected: clean=$c0 (want same) patched=$c1 (want DIFFERENT) [$(tail -1 $w/out-clean.txt) / $(tail -1 $w/out-patched.txt)]"
 echo "SEED $name: baseline with patch: $(env -i HOME=$HOME PATH=$ORIGPATH /verif/tools/baseline.sh $d 2>&1 | head -8 | tr "\n" " ")"
 cd /verif
-VERIF_REPO=$d ./check $id $tier > /tmp/vmut/$name.check.log 2>&1; rc=$?
+VERIF_EVIDENCE_DIR=/tmp/vmut/$name.ev VERIF_REPLAY_ROOT=/tmp/vmut/$name.replays VERIF_REPO=$d ./check $id $tier > /tmp/vmut/$name.check.log 2>&1; rc=$?
 echo "SEED $name: check $id $tier rc=$rc $(grep -c ^VIOLATION /tmp/vmut/$name.check.log) violation line(s)"
 git -C /repo worktree remove --force $d; git -C /repo worktree prune; rm -rf $w
